@@ -80,6 +80,8 @@ pub fn run(ctx: &Ctx) -> i32 {
         cfg.extremes = false;
         cfg.max_layers = 6;
         cfg.max_frames = 6;
+        cfg.link_junk = i % 2 == 0;
+        cfg.nonblank_tile0 = i % 3 == 1;
         if i % 3 == 0 {
             // sparse stacks so that single-visible-layer frames are common
             cfg.cel_density = 2;
